@@ -51,7 +51,7 @@ class Check(Prop):
     RULE = ("cases = a block call on a literal-built receiver (arrays of one or two element types, hash, range, string, integer) of every "
             "shipped method that declares block_parameters (incl. inherited Enumerable methods), with 0-3+ block parameters (declared "
             "count minus one up to plus two), do/end or braces, a parameter that shadows an outer variable, a variable first assigned "
-            "inside the block, optionally nested inside another block; a third of the generated cases use a generated configured class Bq whose method declares 1-4 random block_parameters (Int/String/Float/Symbol/Bool/NilClass/Untyped/Bq). Oracle (model of docs/ti-config.md): inside the block parameter i "
+            "inside the block, optionally nested inside another block and optionally containing a nested block with 0-3 parameters of its own; a third of the generated cases use a generated configured class Bq whose method declares 1-4 random block_parameters (Int/String/Float/Symbol/Bool/NilClass/Untyped/Bq). Oracle (model of docs/ti-config.md): inside the block parameter i "
             "has the declared type (Int/String/Float/Symbol/Bool/NilClass/Untyped as is, Unify = the receiver's element types; Item, "
             "Flatten, UnifyArgument are not modelled - only scoping is asserted for them), surplus parameters are NilClass; after the "
             "block the shadowed outer variable has its previous type and the block-local variable is not visible (Unknown). "
@@ -85,7 +85,7 @@ class Check(Prop):
             n = max(0, len(bps) + draw(st.integers(-1, 2)))
             m = {"cls": "Bq", "name": "bm", "bps": bps, "req": nargs}
             return {"m": m, "recv": "Bq.new", "elem": None, "nparams": n, "brace": draw(st.booleans()), "shadow": draw(st.integers(0, max(0, n))),
-                    "outer": draw(st.integers(0, len(OUTER) - 1)), "nest": draw(st.integers(0, 3)) == 0, "gen": True}
+                    "outer": draw(st.integers(0, len(OUTER) - 1)), "nest": draw(st.integers(0, 3)) == 0, "gen": True, "inner_block": draw(st.sampled_from([0, 0, 1, 2, 3]))}
         return case()
 
     def strategy(self):
@@ -100,7 +100,7 @@ class Check(Prop):
             lit, elem = RECV[m["cls"]][draw(st.integers(0, len(RECV[m["cls"]]) - 1))]
             n = max(0, len(m["bps"]) + draw(st.integers(-1, 2)))
             return {"m": m, "recv": lit, "elem": elem, "nparams": n, "brace": draw(st.booleans()), "shadow": draw(st.integers(0, max(0, n))),
-                    "outer": draw(st.integers(0, len(OUTER) - 1)), "nest": draw(st.integers(0, 3)) == 0}
+                    "outer": draw(st.integers(0, len(OUTER) - 1)), "nest": draw(st.integers(0, 3)) == 0, "inner_block": draw(st.sampled_from([0, 0, 1, 2, 3, 4]))}
         return case()
 
     def sample(self, case):
@@ -134,6 +134,17 @@ class Check(Prop):
                     exp.append([len(lines), [PR[bp]], "param:" + bp])
             else:
                 exp.append([len(lines), ["NilClass"], "surplus"])
+        ib = case.get("inner_block", 0)
+        if ib:
+            # a block nested in the body, with its own parameters (0-3): its scope handling must not disturb the enclosing block's
+            ips = ["ip%d" % i for i in range(ib - 1)]
+            lines.append("%s  [9].each_with_index do%s" % (ind, (" |%s|" % ", ".join(ips)) if ips else ""))
+            lines.append("%s    inner2 = 1" % ind)
+            lines.append("%s  end" % ind)
+            for i, p in enumerate(ps):
+                if i < len(m["bps"]) and (m["bps"][i] in PR or (m["bps"][i] == "Unify" and case["elem"])):
+                    lines.append("%s  dbtp %s" % (ind, p))
+                    exp.append([len(lines), sorted(case["elem"]) if m["bps"][i] == "Unify" else [PR[m["bps"][i]]], "param-after-inner-block"])
         lines.append("%s  inner = 2.5" % ind)
         lines.append("%s  dbtp inner" % ind)
         exp.append([len(lines), ["Float"], "inner-inside"])
